@@ -29,9 +29,9 @@ def run(rep, tier, seed):
         per_system = [combos] * len(SYSTEMS)
     for (system, pm, lvl), cs in zip(SYSTEMS, per_system):
         for c in cs:
-            for weakly in ((False,) if quick or system == "c-inference" else (False, True)):
-                M = 1 if quick or system == "c-inference" else 2
-                h = hist.BudgetHarness(system, pm, weakly, 2, M, 2, H, budgets=[budget(*c), {}], jumps=1 if quick else 2,
+            for weakly in ((False,) if quick or system == "c-inference" or c not in ((0, 0, 1), (5, 1, 1)) else (False, True)):
+                M = 1
+                h = hist.BudgetHarness(system, pm, weakly, 2, M, 2, H, budgets=[budget(*c), {}], jumps=1 if quick or c != (0, 0, 1) else 2,
                                        give_up=(pm == "z3"), level=lvl)
                 drive.run_op(rep, h)
     # two conditionals (two layers possible) for the operators whose recursion descends
